@@ -295,8 +295,17 @@ def check_apply(stats, rule, data, data_mode, ser_name, de_name):
         want = ("ValueError",)
     else:
         want = expect_from_texts(rule_text, data_text, de)
+    # the wrapper only serialises: the caller's objects must be exactly what they were (type-strict: repr tells 2 from 2.0)
+    try:
+        before = (repr(rule), repr(data))
+    except Exception:
+        before = None
     got = run_call(call)
     stats.evals += 1
+    if before is not None:
+        after = (repr(rule), repr(data))
+        if after != before:
+            raise AssertionError("apply(%s, data %s, serializer %s) modified its arguments in place: before %s, after %s" % (describe(rule), describe(data), ser_name, before[0][:200] + " / " + before[1][:200], after[0][:200] + " / " + after[1][:200]))
     judge("apply(%s, data %s, serializer %s, deserializer %s)" % (describe(rule), ("omitted" if data_mode == "omitted" else describe(data)), ser_name, de_name), want, got)
     nontrivial = data_mode == "omitted" or ser is MISSING or de is MISSING or want[0] != "value" or not rule_text.isascii() or any(c.isdigit() for c in rule_text) and ("e+" in rule_text or len(rule_text) > 40)
     label = "apply: %s" % ("error outcome" if want[0] != "value" else "data omitted" if data_mode == "omitted" else "optional argument omitted" if (ser is MISSING or de is MISSING) else "all arguments given")
